@@ -630,23 +630,20 @@ fn run_single_program(
                 let mut s_out = String::new();
                 let mut s_err = String::new();
 
-                unsafe {
-                    if let Some(fds) = fds_capture_stdout {
-                        libs::close(fds.1);
-
-                        let mut f = File::from_raw_fd(fds.0);
-                        match f.read_to_string(&mut s_out) {
-                            Ok(_) => {}
-                            Err(e) => println_stderr!("cicada: readstr: {}", e),
-                        }
+                if let (Some(fds_out), Some(fds_err)) = (fds_capture_stdout, fds_capture_stderr) {
+                    libs::close(fds_out.1);
+                    libs::close(fds_err.1);
+                    // both pipes are drained at the same time: a command that
+                    // fills one of them must never block because we are still
+                    // waiting for EOF on the other one.
+                    let (b_out, b_err) = read_capture_pipes(fds_out.0, fds_err.0);
+                    match String::from_utf8(b_out) {
+                        Ok(x) => s_out = x,
+                        Err(e) => println_stderr!("cicada: readstr: {}", e),
                     }
-                    if let Some(fds) = fds_capture_stderr {
-                        libs::close(fds.1);
-                        let mut f_err = File::from_raw_fd(fds.0);
-                        match f_err.read_to_string(&mut s_err) {
-                            Ok(_) => {}
-                            Err(e) => println_stderr!("cicada: readstr: {}", e),
-                        }
+                    match String::from_utf8(b_err) {
+                        Ok(x) => s_err = x,
+                        Err(e) => println_stderr!("cicada: readstr: {}", e),
                     }
                 }
 
@@ -691,6 +688,47 @@ fn run_single_program(
             0
         }
     }
+}
+
+/// Read both capture pipes to EOF and close them.
+fn read_capture_pipes(fd_out: RawFd, fd_err: RawFd) -> (Vec<u8>, Vec<u8>) {
+    let mut bufs = [Vec::new(), Vec::new()];
+    let mut fds = [
+        libc::pollfd { fd: fd_out, events: libc::POLLIN, revents: 0 },
+        libc::pollfd { fd: fd_err, events: libc::POLLIN, revents: 0 },
+    ];
+    let mut chunk = [0u8; 4096];
+    while fds[0].fd >= 0 || fds[1].fd >= 0 {
+        let n = unsafe { libc::poll(fds.as_mut_ptr(), 2, -1) };
+        if n < 0 {
+            if errno::errno().0 == libc::EINTR {
+                continue;
+            }
+            break;
+        }
+        for i in 0..2 {
+            if fds[i].fd < 0 || fds[i].revents == 0 {
+                continue;
+            }
+            let r = unsafe {
+                libc::read(fds[i].fd, chunk.as_mut_ptr() as *mut libc::c_void, chunk.len())
+            };
+            if r > 0 {
+                bufs[i].extend_from_slice(&chunk[..r as usize]);
+            } else if r == 0 || errno::errno().0 != libc::EINTR {
+                libs::close(fds[i].fd);
+                // negative descriptors are ignored by poll()
+                fds[i].fd = -1;
+            }
+        }
+    }
+    for x in fds.iter() {
+        if x.fd >= 0 {
+            libs::close(x.fd);
+        }
+    }
+    let [b_out, b_err] = bufs;
+    (b_out, b_err)
 }
 
 fn try_run_func(
